@@ -101,7 +101,10 @@ def check_replay(ctx, paths, obs, users, sf, huge):
     the sum over all balance entries in storage is unchanged."""
     n = 0
     cnt = {}
+    diverged = set()
     for o in obs:
+        if o["path"] in diverged:
+            continue  # after the first difference the rest of the path is not a model behaviour any more
         p = paths[o["path"]]
         si = o["step"]
         rep = {"users": users, "sf": sf, "huge": huge, "init": p["init"], "steps": [strip_act(s["act"]) for s in p["steps"][:si]]}
@@ -127,6 +130,7 @@ def check_replay(ctx, paths, obs, users, sf, huge):
             what = "failed-call-changed-state" if not o["ok"] else ("effect-differs" if act["ok"] else "succeeded-but-must-fail")
             ctx.violation("%s:%s:%s" % (key, what, d[0].split(".")[0]),
                           {"field": d[0], "real": d[1], "model": d[2], "real_ok": o["ok"], "err": o.get("err"), "act": act}, rep)
+            diverged.add(o["path"])
             continue
         for t in ("ont", "ong"):
             if o["supply"][t] != "0":
